@@ -101,40 +101,21 @@ theorem emitMetrics_len : ∀ (t : MetricTree) (st : WState), (emitMetrics t st)
     rw [emitMetrics_len t, emitResources_len]
     simp [treeSize, totalSize]; omega
 
-/-! ### points that reach the tree -/
-
-/-- the sorting converter keeps every point except number points without a value
-    (covertNumberDataPoints `continue`s on NumberDataPointValueTypeEmpty) -/
-def keptPoint (t : MType) (p : Point) : Bool :=
-  match t with
-  | .gauge | .sum => p.vt != 0
-  | _ => true
-
-def keptMetric (m : Metric) : Nat := (m.points.filter (keptPoint m.type)).length
-def keptMetrics (l : List Metric) : Nat := (l.map keptMetric).sum
-def keptScopes (l : List ScopeMetrics) : Nat := (l.map fun s => keptMetrics s.metrics).sum
-def keptResources (l : List ResourceMetrics) : Nat := (l.map fun r => keptScopes r.scopes).sum
+/-! ### points that reach the tree: all of them (since repo commit 42fcfbf) -/
 
 theorem sortNumbers_size (m : Metric) (mk : MetricKey) (rk : ResKey) (sk : ScopeKey) :
     ∀ (ps : List Point) (st st' : SortState), sortNumbers m mk rk sk ps st = .ok st' →
-      treeSize st'.tree = treeSize st.tree + (ps.filter (fun p => p.vt != 0)).length
+      treeSize st'.tree = treeSize st.tree + ps.length
   | [], st, st', h => by simp [sortNumbers] at h; subst h; simp
   | p :: ps, st, st', h => by
     simp only [sortNumbers] at h
     split at h
-    · rename_i hv
-      have := sortNumbers_size m mk rk sk ps st st' h
-      have hv' : p.vt = 0 := by simpa using hv
-      simp [this, hv']
-    · rename_i hv
-      split at h
+    · simp at h
+    · split at h
       · simp at h
-      · split at h
-        · simp at h
-        · have := sortNumbers_size m mk rk sk ps _ st' h
-          have hv' : (p.vt != 0) = true := by simpa using hv
-          simp only [treeAdd_size] at this
-          simp [this, hv']; omega
+      · have := sortNumbers_size m mk rk sk ps _ st' h
+        simp only [treeAdd_size] at this
+        simp [this]; omega
 
 theorem sortHistograms_size (m : Metric) (rk : ResKey) (sk : ScopeKey) :
     ∀ (ps : List Point) (st st' : SortState), sortHistograms m rk sk ps st = .ok st' →
@@ -174,43 +155,35 @@ theorem sortSummaries_size (m : Metric) (rk : ResKey) (sk : ScopeKey) :
     simp only [treeAdd_size] at this
     simp [this]; omega
 
-theorem keptPoint_gauge : keptPoint .gauge = fun p => p.vt != 0 := by funext p; rfl
-theorem keptPoint_sum : keptPoint .sum = fun p => p.vt != 0 := by funext p; rfl
-theorem filter_kept_other (t : MType) (ht : t = .hist ∨ t = .exp ∨ t = .summary) (l : List Point) :
-    l.filter (keptPoint t) = l := by
-  apply List.filter_eq_self.mpr
-  intro p _
-  rcases ht with h | h | h <;> subst h <;> rfl
-
 theorem sortMetric_size (rk : ResKey) (sk : ScopeKey) (m : Metric) (st st' : SortState)
-    (h : sortMetric rk sk m st = .ok st') : treeSize st'.tree = treeSize st.tree + keptMetric m := by
+    (h : sortMetric rk sk m st = .ok st') : treeSize st'.tree = treeSize st.tree + m.points.length := by
   unfold sortMetric at h
   cases hmt : m.type with
   | gauge =>
     simp only [hmt] at h
-    simp [keptMetric, hmt, keptPoint_gauge, sortNumbers_size _ _ _ _ _ _ _ h]
+    exact sortNumbers_size _ _ _ _ _ _ _ h
   | sum =>
     simp only [hmt] at h
     split at h
-    · simp [keptMetric, hmt, keptPoint_sum, sortNumbers_size _ _ _ _ _ _ _ h]
+    · exact sortNumbers_size _ _ _ _ _ _ _ h
     · simp at h
   | hist =>
     simp only [hmt] at h
     split at h
-    · simp [keptMetric, hmt, filter_kept_other .hist (Or.inl rfl), sortHistograms_size _ _ _ _ _ _ h]
+    · exact sortHistograms_size _ _ _ _ _ _ h
     · simp at h
   | exp =>
     simp only [hmt] at h
     split at h
-    · simp [keptMetric, hmt, filter_kept_other .exp (Or.inr (Or.inl rfl)), sortExpHistograms_size _ _ _ _ _ _ h]
+    · exact sortExpHistograms_size _ _ _ _ _ _ h
     · simp at h
   | summary =>
     simp only [hmt] at h
-    simp [keptMetric, hmt, filter_kept_other .summary (Or.inr (Or.inr rfl)), sortSummaries_size _ _ _ _ _ _ h]
+    exact sortSummaries_size _ _ _ _ _ _ h
 
 theorem sortMetrics_size (rk : ResKey) (sk : ScopeKey) : ∀ (ms : List Metric) (st st' : SortState),
-    sortMetrics rk sk ms st = .ok st' → treeSize st'.tree = treeSize st.tree + keptMetrics ms
-  | [], st, st', h => by simp [sortMetrics] at h; subst h; simp [keptMetrics]
+    sortMetrics rk sk ms st = .ok st' → treeSize st'.tree = treeSize st.tree + pointCountMetrics ms
+  | [], st, st', h => by simp [sortMetrics] at h; subst h; simp [pointCountMetrics]
   | m :: ms, st, st', h => by
     simp only [sortMetrics] at h
     split at h
@@ -218,12 +191,12 @@ theorem sortMetrics_size (rk : ResKey) (sk : ScopeKey) : ∀ (ms : List Metric) 
     · rename_i st1 h1
       have a := sortMetric_size rk sk m st st1 h1
       have b := sortMetrics_size rk sk ms st1 st' h
-      simp only [keptMetrics, List.map_cons, List.sum_cons] at b ⊢
+      simp only [pointCountMetrics, List.map_cons, List.sum_cons] at b ⊢
       omega
 
 theorem sortScopes_size (rk : ResKey) : ∀ (ss : List ScopeMetrics) (st st' : SortState),
-    sortScopes rk ss st = .ok st' → treeSize st'.tree = treeSize st.tree + keptScopes ss
-  | [], st, st', h => by simp [sortScopes] at h; subst h; simp [keptScopes]
+    sortScopes rk ss st = .ok st' → treeSize st'.tree = treeSize st.tree + pointCountScopes ss
+  | [], st, st', h => by simp [sortScopes] at h; subst h; simp [pointCountScopes]
   | s :: ss, st, st', h => by
     simp only [sortScopes] at h
     split at h
@@ -231,12 +204,12 @@ theorem sortScopes_size (rk : ResKey) : ∀ (ss : List ScopeMetrics) (st st' : S
     · rename_i st1 h1
       have a := sortMetrics_size rk _ s.metrics st st1 h1
       have b := sortScopes_size rk ss st1 st' h
-      simp only [keptScopes, List.map_cons, List.sum_cons] at b ⊢
+      simp only [pointCountScopes, List.map_cons, List.sum_cons] at b ⊢
       omega
 
 theorem sortResources_size : ∀ (rs : List ResourceMetrics) (st st' : SortState),
-    sortResources rs st = .ok st' → treeSize st'.tree = treeSize st.tree + keptResources rs
-  | [], st, st', h => by simp [sortResources] at h; subst h; simp [keptResources]
+    sortResources rs st = .ok st' → treeSize st'.tree = treeSize st.tree + pointCountResources rs
+  | [], st, st', h => by simp [sortResources] at h; subst h; simp [pointCountResources]
   | r :: rs, st, st', h => by
     simp only [sortResources] at h
     split at h
@@ -244,41 +217,18 @@ theorem sortResources_size : ∀ (rs : List ResourceMetrics) (st st' : SortState
     · rename_i st1 h1
       have a := sortScopes_size _ r.scopes st st1 h1
       have b := sortResources_size rs st1 st' h
-      simp only [keptResources, List.map_cons, List.sum_cons] at b ⊢
+      simp only [pointCountResources, List.map_cons, List.sum_cons] at b ⊢
       omega
 
-/-- number of data points the sorting converter keeps -/
-def keptCount (m : Metrics) : Nat := keptResources m.rms
-
 theorem otlpToStefSorted_count (m : Metrics) (recs : List SRecord) (h : otlpToStefSorted m = .ok recs) :
-    recs.length = keptCount m := by
+    recs.length = (flatten m).length := by
   simp only [otlpToStefSorted] at h
   split at h
   · simp at h
   · rename_i st hst
     simp at h; subst h
     have a := sortResources_size m.rms {} st hst
-    rw [List.length_reverse, emitMetrics_len, a]
-    simp [keptCount, treeSize, totalSize]
-
-/-- when every number point has a value, every point is kept -/
-theorem keptCount_all (m : Metrics)
-    (h : ∀ r ∈ m.rms, ∀ s ∈ r.scopes, ∀ mt ∈ s.metrics, ∀ p ∈ mt.points, keptPoint mt.type p = true) :
-    keptCount m = (flatten m).length := by
-  rw [flatten_length]
-  unfold keptCount keptResources pointCountResources
-  congr 1
-  apply List.map_congr_left
-  intro r hr
-  unfold keptScopes pointCountScopes
-  congr 1
-  apply List.map_congr_left
-  intro s hs
-  unfold keptMetrics pointCountMetrics
-  congr 1
-  apply List.map_congr_left
-  intro mt hm
-  unfold keptMetric
-  rw [List.filter_eq_self.mpr (h r hr s hs mt hm)]
+    rw [List.length_reverse, emitMetrics_len, a, flatten_length]
+    simp [treeSize, totalSize]
 
 end Stef.Otlp
